@@ -22,7 +22,7 @@ EXPLANATION = (
     'of the picker: a path that yields a non-final fragment leaves the source queued exactly once, every other path '
     'removes exactly one element. (d) The receiving side is C03.c. Not decided: behaviour for all queue contents and '
     'drain timings beyond these facts.')
-EXPLANATION_ADDED = ('(f) the queue class gives the picker what it assumes (peek = element the next get returns, only when not empty; any_other = some other queued element satisfies the predicate); head insertion puts the frame in only after the queue was seen empty and re-queues every drained element; the send helpers put exactly one frame with the stream id given; only the picker dequeues (shared C01.c).')
+EXPLANATION_ADDED = ('(f) the queue class gives the picker what it assumes (peek = element the next get returns, only when not empty; any_other = some other queued element satisfies the predicate); head insertion puts the frame in only after the queue was seen empty and re-queues every drained element; the send helpers put exactly one frame with the stream id given; only the picker dequeues (shared C01.c). (g) only the sender task, fed by the frame picker, awaits transport.send_frame(): no other method of the socket classes writes to the transport past the send queue.')
 EXPLANATION = EXPLANATION.replace(' Not decided', ' ' + EXPLANATION_ADDED + ' Not decided', 1) \
     if ' Not decided' in EXPLANATION else EXPLANATION + ' ' + EXPLANATION_ADDED
 ASSUMPTIONS = COMMON_ASSUMPTIONS
@@ -451,5 +451,39 @@ def rule_g(ctx):
     c01c(ctx)
 
 
+def rule_single_writer(ctx):
+    """Only the sender task writes to the transport: every frame goes through the send queue, which is what makes
+    "queued order = wire order" and "nothing of a stream between the fragments of its frame" decidable at the picker.
+    An `await transport.send_frame(...)` anywhere else in the socket classes - an error reply written straight from
+    the receive loop, say - overtakes what is queued and can land between two fragments."""
+    rep = ctx.report
+    slots = ctx.slots
+    writers = []
+    n_methods = 0
+    for k in (slots.RSocketBase, slots.RSocketClient, slots.RSocketServer):
+        for name, m in k.methods.items():
+            n_methods += 1
+            for n in walk_local(m.node):
+                if isinstance(n, ast.Await) and isinstance(n.value, ast.Call) and \
+                        isinstance(n.value.func, ast.Attribute) and n.value.func.attr == 'send_frame' and \
+                        not (isinstance(n.value.func.value, ast.Name) and n.value.func.value.id == 'self'):
+                    writers.append((k, m, n))
+    if not writers:
+        raise AnalysisError('C05.g: nothing in the socket classes writes to the transport')
+    # the sender: the coroutine that takes frames from the picker
+    senders = {m.qualname for k, m, n in writers
+               if any(isinstance(c, ast.Call) and isinstance(c.func, ast.Attribute) and
+                      c.func.attr == '_get_next_frame_to_send' for c in ast.walk(m.node))}
+    if len(senders) != 1:
+        raise AnalysisError('C05.g: %d coroutines both pick frames and write them' % len(senders))
+    others = [(k, m, n) for k, m, n in writers if m.qualname not in senders]
+    rep.add('C05.g', 'socket classes / only the sender task writes to the transport', writers[0][1], not others,
+            'the only awaited transport.send_frame() is in %s, fed by the frame picker (%d methods scanned)' % (
+                sorted(senders)[0].split(':')[-1], n_methods) if not others else
+            '%s (line %d) writes a frame straight to the transport, past the send queue and the sender: it overtakes '
+            'queued frames of its stream and can land between the fragments of one' % (
+                others[0][1].short, others[0][2].lineno))
+
+
 RULES = [('C05.a', rule_a), ('C05.b', rule_b), ('C05.c', rule_c), ('C05.e', rule_e), ('C05.f', rule_f),
-         ('C01.c', rule_g)]
+         ('C01.c', rule_g), ('C05.g', rule_single_writer)]
